@@ -149,119 +149,119 @@ func c17Matrix(c *core.Check, r *core.Rule) {
 		return
 	}
 	runAll := func(zeroSet map[string]bool, label string, only map[string]bool) map[string]map[string]bool {
-	comparedBy := map[string]map[string]bool{}
-	z := func(m mat6) mat6 {
-		for i, n := range []string{"A", "B", "C", "D", "E", "F"} {
-			for pre := range map[string]bool{"T": true, "U": true, "V": true} {
-				if m[i].Equal(core.SymR(pre+"."+n)) && zeroSet[pre+"."+n] {
-					m[i] = core.NumR(0)
+		comparedBy := map[string]map[string]bool{}
+		z := func(m mat6) mat6 {
+			for i, n := range []string{"A", "B", "C", "D", "E", "F"} {
+				for pre := range map[string]bool{"T": true, "U": true, "V": true} {
+					if m[i].Equal(core.SymR(pre+"."+n)) && zeroSet[pre+"."+n] {
+						m[i] = core.NumR(0)
+					}
 				}
 			}
+			return m
 		}
-		return m
-	}
-	M, U, V := z(symMat("T")), z(symMat("U")), z(symMat("V"))
-	tan := func(s string) core.RatP { return core.SymR("tan(" + s + ")") }
-	cos := func(s string) core.RatP { return core.SymR("cos(" + s + ")") }
-	sin := func(s string) core.RatP { return core.SymR("sin(" + s + ")") }
-	sym := core.SymR
-	symA := func(n string) core.AV { return core.SymP(n) }
+		M, U, V := z(symMat("T")), z(symMat("U")), z(symMat("V"))
+		tan := func(s string) core.RatP { return core.SymR("tan(" + s + ")") }
+		cos := func(s string) core.RatP { return core.SymR("cos(" + s + ")") }
+		sin := func(s string) core.RatP { return core.SymR("sin(" + s + ")") }
+		sym := core.SymR
+		symA := func(n string) core.AV { return core.SymP(n) }
 
-	specTranslation := mat6{one(), zero(), zero(), one(), sym("tx"), sym("ty")}
-	specScaling := mat6{sym("sx"), zero(), zero(), sym("sy"), zero(), zero()}
-	specRotation := mat6{cos("a"), sin("a"), sin("a").Neg(), cos("a"), zero(), zero()}
-	// skew(ax, ay): x' = x + tan(ax) y ; y' = tan(ay) x + y
-	specSkew := mat6{one(), tan("ay"), tan("ax"), one(), zero(), zero()}
+		specTranslation := mat6{one(), zero(), zero(), one(), sym("tx"), sym("ty")}
+		specScaling := mat6{sym("sx"), zero(), zero(), sym("sy"), zero(), zero()}
+		specRotation := mat6{cos("a"), sin("a"), sin("a").Neg(), cos("a"), zero(), zero()}
+		// skew(ax, ay): x' = x + tan(ax) y ; y' = tan(ay) x + y
+		specSkew := mat6{one(), tan("ay"), tan("ax"), one(), zero(), zero()}
 
-	type tcase struct {
-		name   string
-		fn     *ssa.Function
-		args   []core.AV
-		expect func(res []core.AV, args []core.AV) (bool, string, string)
-	}
-	expectMat := func(want mat6) func([]core.AV, []core.AV) (bool, string, string) {
-		return func(res []core.AV, _ []core.AV) (bool, string, string) {
-			if len(res) != 1 {
-				return false, "", "no single result"
-			}
-			got, ok := matOf(res[0])
-			if !ok {
-				return false, "", "result is not a polynomial matrix: " + core.AVString(res[0])
-			}
-			return got.equal(want), got.String(), "specification: " + want.String()
+		type tcase struct {
+			name   string
+			fn     *ssa.Function
+			args   []core.AV
+			expect func(res []core.AV, args []core.AV) (bool, string, string)
 		}
-	}
-	expectInPlace := func(want mat6) func([]core.AV, []core.AV) (bool, string, string) {
-		return func(_ []core.AV, args []core.AV) (bool, string, string) {
-			got, ok := matOf(core.Deref(args[0]))
-			if !ok {
-				return false, "", "receiver is not a polynomial matrix after the call: " + core.AVString(core.Deref(args[0]))
+		expectMat := func(want mat6) func([]core.AV, []core.AV) (bool, string, string) {
+			return func(res []core.AV, _ []core.AV) (bool, string, string) {
+				if len(res) != 1 {
+					return false, "", "no single result"
+				}
+				got, ok := matOf(res[0])
+				if !ok {
+					return false, "", "result is not a polynomial matrix: " + core.AVString(res[0])
+				}
+				return got.equal(want), got.String(), "specification: " + want.String()
 			}
-			return got.equal(want), got.String(), "specification: " + want.String()
 		}
-	}
-	ptr := func(m mat6) core.AV { return core.Ptr{C: &core.Cell{V: m.av()}} }
-	fnOf := func(name string) *ssa.Function { return p.Fn("matrix", name) }
-	meth := func(name string) *ssa.Function { return p.Method("matrix", "Transform", name) }
-	det := M[0].Mul(M[3]).Add(M[1].Mul(M[2]).Neg())
-	// inverse of an affine map: A^-1 = adj/det ; translation = -A^-1 (E,F)
-	iA, iB, iC, iD := M[3].Div(det), M[1].Neg().Div(det), M[2].Neg().Div(det), M[0].Div(det)
-	specInv := mat6{iA, iB, iC, iD,
-		iA.Mul(M[4]).Add(iC.Mul(M[5])).Neg(),
-		iB.Mul(M[4]).Add(iD.Mul(M[5])).Neg()}
+		expectInPlace := func(want mat6) func([]core.AV, []core.AV) (bool, string, string) {
+			return func(_ []core.AV, args []core.AV) (bool, string, string) {
+				got, ok := matOf(core.Deref(args[0]))
+				if !ok {
+					return false, "", "receiver is not a polynomial matrix after the call: " + core.AVString(core.Deref(args[0]))
+				}
+				return got.equal(want), got.String(), "specification: " + want.String()
+			}
+		}
+		ptr := func(m mat6) core.AV { return core.Ptr{C: &core.Cell{V: m.av()}} }
+		fnOf := func(name string) *ssa.Function { return p.Fn("matrix", name) }
+		meth := func(name string) *ssa.Function { return p.Method("matrix", "Transform", name) }
+		det := M[0].Mul(M[3]).Add(M[1].Mul(M[2]).Neg())
+		// inverse of an affine map: A^-1 = adj/det ; translation = -A^-1 (E,F)
+		iA, iB, iC, iD := M[3].Div(det), M[1].Neg().Div(det), M[2].Neg().Div(det), M[0].Div(det)
+		specInv := mat6{iA, iB, iC, iD,
+			iA.Mul(M[4]).Add(iC.Mul(M[5])).Neg(),
+			iB.Mul(M[4]).Add(iD.Mul(M[5])).Neg()}
 
-	cases := []tcase{
-		{"Identity", fnOf("Identity"), nil, expectMat(mat6{one(), zero(), zero(), one(), zero(), zero()})},
-		{"New", fnOf("New"), []core.AV{symA("a"), symA("b"), symA("c"), symA("d"), symA("e"), symA("f")}, expectMat(mat6{sym("a"), sym("b"), sym("c"), sym("d"), sym("e"), sym("f")})},
-		{"Translation", fnOf("Translation"), []core.AV{symA("tx"), symA("ty")}, expectMat(specTranslation)},
-		{"Scaling", fnOf("Scaling"), []core.AV{symA("sx"), symA("sy")}, expectMat(specScaling)},
-		{"Rotation", fnOf("Rotation"), []core.AV{symA("a")}, expectMat(specRotation)},
-		{"Skew", fnOf("Skew"), []core.AV{symA("ax"), symA("ay")}, expectMat(specSkew)},
-		{"Mul", fnOf("Mul"), []core.AV{M.av(), U.av()}, expectMat(specMul(M, U))},
-		{"Mul3", fnOf("Mul3"), []core.AV{M.av(), U.av(), V.av()}, expectMat(specMul(M, specMul(U, V)))},
-		{"Transform.Determinant", meth("Determinant"), []core.AV{M.av()}, func(res []core.AV, _ []core.AV) (bool, string, string) {
-			got, ok := core.ToRat(res[0])
-			return ok && got.Equal(det), core.AVString(res[0]), "specification: " + det.String()
-		}},
-		{"Transform.Apply", meth("Apply"), []core.AV{M.av(), symA("x"), symA("y")}, func(res []core.AV, _ []core.AV) (bool, string, string) {
-			if len(res) != 2 {
-				return false, "", "two results expected"
+		cases := []tcase{
+			{"Identity", fnOf("Identity"), nil, expectMat(mat6{one(), zero(), zero(), one(), zero(), zero()})},
+			{"New", fnOf("New"), []core.AV{symA("a"), symA("b"), symA("c"), symA("d"), symA("e"), symA("f")}, expectMat(mat6{sym("a"), sym("b"), sym("c"), sym("d"), sym("e"), sym("f")})},
+			{"Translation", fnOf("Translation"), []core.AV{symA("tx"), symA("ty")}, expectMat(specTranslation)},
+			{"Scaling", fnOf("Scaling"), []core.AV{symA("sx"), symA("sy")}, expectMat(specScaling)},
+			{"Rotation", fnOf("Rotation"), []core.AV{symA("a")}, expectMat(specRotation)},
+			{"Skew", fnOf("Skew"), []core.AV{symA("ax"), symA("ay")}, expectMat(specSkew)},
+			{"Mul", fnOf("Mul"), []core.AV{M.av(), U.av()}, expectMat(specMul(M, U))},
+			{"Mul3", fnOf("Mul3"), []core.AV{M.av(), U.av(), V.av()}, expectMat(specMul(M, specMul(U, V)))},
+			{"Transform.Determinant", meth("Determinant"), []core.AV{M.av()}, func(res []core.AV, _ []core.AV) (bool, string, string) {
+				got, ok := core.ToRat(res[0])
+				return ok && got.Equal(det), core.AVString(res[0]), "specification: " + det.String()
+			}},
+			{"Transform.Apply", meth("Apply"), []core.AV{M.av(), symA("x"), symA("y")}, func(res []core.AV, _ []core.AV) (bool, string, string) {
+				if len(res) != 2 {
+					return false, "", "two results expected"
+				}
+				gx, ok1 := core.ToRat(res[0])
+				gy, ok2 := core.ToRat(res[1])
+				wx := M[0].Mul(sym("x")).Add(M[2].Mul(sym("y"))).Add(M[4])
+				wy := M[1].Mul(sym("x")).Add(M[3].Mul(sym("y"))).Add(M[5])
+				return ok1 && ok2 && gx.Equal(wx) && gy.Equal(wy), core.AVString(res[0]) + " ; " + core.AVString(res[1]), "specification: " + wx.String() + " ; " + wy.String()
+			}},
+			{"(*Transform).LeftMultBy", meth("LeftMultBy"), []core.AV{ptr(M), U.av()}, expectInPlace(specMul(U, M))},
+			{"(*Transform).RightMultBy", meth("RightMultBy"), []core.AV{ptr(M), U.av()}, expectInPlace(specMul(M, U))},
+			{"(*Transform).Translate", meth("Translate"), []core.AV{ptr(M), symA("tx"), symA("ty")}, expectInPlace(specMul(M, specTranslation))},
+			{"(*Transform).Scale", meth("Scale"), []core.AV{ptr(M), symA("sx"), symA("sy")}, expectInPlace(specMul(M, specScaling))},
+			{"(*Transform).Rotate", meth("Rotate"), []core.AV{ptr(M), symA("a")}, expectInPlace(specMul(M, specRotation))},
+			{"(*Transform).Skew", meth("Skew"), []core.AV{ptr(M), symA("ax"), symA("ay")}, expectInPlace(specMul(M, specSkew))},
+			{"(*Transform).Invert", meth("Invert"), []core.AV{ptr(M)}, expectInPlace(specInv)},
+		}
+		for _, tc := range cases {
+			if tc.fn == nil {
+				r.Anchor("matrix." + tc.name)
+				continue
 			}
-			gx, ok1 := core.ToRat(res[0])
-			gy, ok2 := core.ToRat(res[1])
-			wx := M[0].Mul(sym("x")).Add(M[2].Mul(sym("y"))).Add(M[4])
-			wy := M[1].Mul(sym("x")).Add(M[3].Mul(sym("y"))).Add(M[5])
-			return ok1 && ok2 && gx.Equal(wx) && gy.Equal(wy), core.AVString(res[0]) + " ; " + core.AVString(res[1]), "specification: " + wx.String() + " ; " + wy.String()
-		}},
-		{"(*Transform).LeftMultBy", meth("LeftMultBy"), []core.AV{ptr(M), U.av()}, expectInPlace(specMul(U, M))},
-		{"(*Transform).RightMultBy", meth("RightMultBy"), []core.AV{ptr(M), U.av()}, expectInPlace(specMul(M, U))},
-		{"(*Transform).Translate", meth("Translate"), []core.AV{ptr(M), symA("tx"), symA("ty")}, expectInPlace(specMul(M, specTranslation))},
-		{"(*Transform).Scale", meth("Scale"), []core.AV{ptr(M), symA("sx"), symA("sy")}, expectInPlace(specMul(M, specScaling))},
-		{"(*Transform).Rotate", meth("Rotate"), []core.AV{ptr(M), symA("a")}, expectInPlace(specMul(M, specRotation))},
-		{"(*Transform).Skew", meth("Skew"), []core.AV{ptr(M), symA("ax"), symA("ay")}, expectInPlace(specMul(M, specSkew))},
-		{"(*Transform).Invert", meth("Invert"), []core.AV{ptr(M)}, expectInPlace(specInv)},
-	}
-	for _, tc := range cases {
-		if tc.fn == nil {
-			r.Anchor("matrix." + tc.name)
-			continue
+			if only != nil && !only[tc.name] {
+				continue
+			}
+			compared := map[string]bool{}
+			res, _, err := foldMat(p, tc.fn, tc.args, zeroSet, compared)
+			comparedBy[tc.name] = compared
+			pos := p.Pos(tc.fn.Pos())
+			if err != nil {
+				r.Unknown("matrix."+tc.name+label, pos, err.Error())
+				continue
+			}
+			ok, got, want := tc.expect(res, tc.args)
+			r.Cond(ok, "matrix."+tc.name+label, pos, "normal form "+got, "normal form "+got+" ; "+want)
 		}
-		if only != nil && !only[tc.name] {
-			continue
-		}
-		compared := map[string]bool{}
-		res, _, err := foldMat(p, tc.fn, tc.args, zeroSet, compared)
-		comparedBy[tc.name] = compared
-		pos := p.Pos(tc.fn.Pos())
-		if err != nil {
-			r.Unknown("matrix."+tc.name+label, pos, err.Error())
-			continue
-		}
-		ok, got, want := tc.expect(res, tc.args)
-		r.Cond(ok, "matrix."+tc.name+label, pos, "normal form "+got, "normal form "+got+" ; "+want)
-	}
 
-	return comparedBy
+		return comparedBy
 	}
 	base := runAll(map[string]bool{}, "", nil)
 	// case split: a routine that tests an input entry against zero (a fast path) is folded again with that entry
@@ -779,7 +779,9 @@ func c17SVG(c *core.Check, r *core.Rule) {
 	sinS := func(a core.Poly) core.Poly { return core.SymP("sin(" + a.String() + ")") }
 	a := func(i int) core.Poly { return core.SymP(fmt.Sprintf("a%d", i)) }
 	R := core.PolyR
-	rot := func(th core.Poly) mat6 { return mat6{R(cosS(th)), R(sinS(th)), R(sinS(th).Neg()), R(cosS(th)), zero(), zero()} }
+	rot := func(th core.Poly) mat6 {
+		return mat6{R(cosS(th)), R(sinS(th)), R(sinS(th).Neg()), R(cosS(th)), zero(), zero()}
+	}
 	tr := func(x, y core.Poly) mat6 { return mat6{one(), zero(), zero(), one(), R(x), R(y)} }
 	for _, kcase := range []string{"rotate", "rotateWithOrigin", "translate", "skew", "scale", "customMatrix"} {
 		kv, ok := kindVal[kcase]
